@@ -1521,6 +1521,43 @@ func catchFault(f func()) (msg string) {
 	return ""
 }
 
+// serializedLen: bounds of the length of stackitem.Serialize(v) for a frozen value: one type byte per item,
+// a one-byte count or length prefix (items and strings below 253), integers of 0..32 bytes.
+func serializedLen(v Value) (lo, hi int) {
+	switch x := v.(type) {
+	case IntV:
+		if x.t.isC() {
+			n := len(constLE(x.t.n))
+			return 2 + n, 2 + n
+		}
+		return 2, 2 + 32
+	case BoolV:
+		return 2, 2
+	case NullV:
+		return 1, 1
+	case BytesV:
+		if len(x.b) >= 253 {
+			return 1 + 3 + len(x.b), 1 + 3 + len(x.b)
+		}
+		return 2 + len(x.b), 2 + len(x.b)
+	case StructV:
+		lo, hi = 2, 2
+		for _, f := range x.f {
+			l, h := serializedLen(f)
+			lo, hi = lo+l, hi+h
+		}
+		return lo, hi
+	case FrozenList:
+		lo, hi = 2, 2
+		for _, f := range x.e {
+			l, h := serializedLen(f)
+			lo, hi = lo+l, hi+h
+		}
+		return lo, hi
+	}
+	panic(fmt.Sprintf("serializedLen of %T", v))
+}
+
 func binop(op token.Token, x, y Value) Value {
 	if _, ok := y.(NullV); ok {
 		_, xn := x.(NullV)
@@ -1537,6 +1574,26 @@ func binop(op token.Token, x, y Value) Value {
 			return BoolV{tFalse}
 		case token.NEQ:
 			return BoolV{tTrue}
+		}
+	}
+	// a serialization box against a byte string (or another box): equal only if the lengths can agree.
+	// The box's content is not modelled byte by byte; its length range follows from the shape of the value
+	// (NeoVM binary format). Anything this cannot decide is an engine limitation, not a guess.
+	if op == token.EQL || op == token.NEQ {
+		sx, xs := x.(SerV)
+		sy, ys := y.(SerV)
+		if xs != ys {
+			box, other := sx, y
+			if ys {
+				box, other = sy, x
+			}
+			if ob, ok := other.(BytesV); ok {
+				lo, hi := serializedLen(box.v)
+				if len(ob.b) < lo || len(ob.b) > hi {
+					return BoolV{B(op == token.NEQ)}
+				}
+				panic(fmt.Sprintf("comparison of a serialized item (%d..%d bytes) with a %d-byte string is not modelled", lo, hi, len(ob.b)))
+			}
 		}
 	}
 	if xb, ok := x.(BytesV); ok {
@@ -1713,7 +1770,15 @@ func (e *Engine) intToBytes(s *St, x *T) []coerced {
 	var out []coerced
 	prevLo, prevHi := big.NewInt(0), big.NewInt(0) // class 0: x == 0
 	out = append(out, coerced{Eq(x, I(0)), BytesV{nil}})
-	for k := 1; k <= 4; k++ {
+	// Length classes: 1..4 bytes always; 5..32 bytes (the largest NeoVM integer) only when the value can
+	// leave the 4-byte range on this path — one extra query in the common case. Enumerating 1..4 only, as
+	// this used to do, made a path with a larger symbolic integer vanish without a trace.
+	maxK := 4
+	small := new(big.Int).Lsh(big.NewInt(1), 31)
+	if e.feasible(s.State, Not(And(Le(IB(new(big.Int).Neg(small)), x), Lt(x, IB(small))))) {
+		maxK = 32
+	}
+	for k := 1; k <= maxK; k++ {
 		hi := new(big.Int).Lsh(big.NewInt(1), uint(8*k-1)) // 2^(8k-1)
 		lo := new(big.Int).Neg(hi)
 		inClass := And(Le(IB(lo), x), Lt(x, IB(hi)))
